@@ -633,6 +633,9 @@ def to_smt(t, memo=None):
     return r
 
 
+USORTS = {"J", "RlpVal"}        # uninterpreted sorts
+
+
 def collect_decls(terms):
     consts, funs, sorts = {}, {}, set()
     seen = set()
@@ -643,20 +646,23 @@ def collect_decls(terms):
         seen.add(t)
         if t.op == "const":
             consts[t.val] = t.sort
-        if "J" in t.sort.replace("(", " ").replace(")", " ").split():
-            sorts.add("J")
+        for us in USORTS:
+            if us in t.sort.replace("(", " ").replace(")", " ").split():
+                sorts.add(us)
         if t.op == "uf":
             d = FunDecl.registry[t.args[0]]
             funs[d.name] = d
             for s in d.argsorts + (d.ressort,):
-                if "J" in s.replace("(", " ").replace(")", " ").split():
-                    sorts.add("J")
+                for us in USORTS:
+                    if us in s.replace("(", " ").replace(")", " ").split():
+                        sorts.add(us)
             for a in t.args[1:]:
                 walk(a)
         elif t.op in ("forall", "exists"):
             for v in t.args[0]:
-                if "J" in v.sort.replace("(", " ").replace(")", " ").split():
-                    sorts.add("J")
+                for us in USORTS:
+                    if us in v.sort.replace("(", " ").replace(")", " ").split():
+                        sorts.add(us)
             walk(t.args[1])
         else:
             for a in t.args:
@@ -713,8 +719,8 @@ def z3_sort(sort):
         s = z3.BoolSort()
     elif sort == STR:
         s = z3.StringSort()
-    elif sort == J:
-        s = z3.DeclareSort("J")
+    elif sort in USORTS:
+        s = z3.DeclareSort(sort)
     elif sort.startswith("(Seq "):
         s = z3.SeqSort(z3_sort(seq_elem(sort)))
     elif sort.startswith("(Array "):
